@@ -63,6 +63,10 @@ def run(ctx):
             c["id"] = f"C11-s{k}-{mode}"
             cases.append(c)
     _tempo.judge(ctx, cases, "C11", "seeded charts, sorted and with reordered sections", lookups=_lookups)
+    if ctx.tier == "thorough":
+        # bonus: the hinted forward scan is correct for EVERY map of <= 5 tempo events with unbounded ticks, every tick
+        # and every hint (Apalache, spec/apalache/LookupScan.tla).  Recorded in the evidence; nothing depends on it.
+        ctx.apalache_inductive("LookupScan", "apalache_LookupScan")
     ctx.assumptions += [
         "hints are 0-based indices as in the public keyword start_iteration_index; hints 0..len+1 are tried",
         "for reordered sections the property allows ValueError; any returned chart must satisfy the stored-timestamp equalities",
